@@ -33,9 +33,13 @@ Lemma fit_ok opd mask modes nrm crd c :
   fit opd mask modes nrm crd = Ok c ->
   modes_ok modes = true /\ nr opd * nc opd = npix mask /\ length c = length modes /\
   NE (klen modes) (npix mask) (bmat mask modes nrm crd) (ravel opd) (nthZ c).
-Proof. unfold zernike_fit. destruct (modes_ok modes); [|discriminate]. cbn [negb].
+Proof. unfold zernike_fit, zernike_basis_vec. destruct (modes_ok modes); [|discriminate]. cbn [negb].
+  destruct (Nat.eqb (length modes) 0); [discriminate|]. cbn [rbind nr nc get].
   destruct (nr opd * nc opd =? npix mask) eqn:E; [|discriminate]. cbn [negb]. intros H.
   apply solve_sound in H as [H1 H2]. repeat split; try assumption; lia. Qed.
+(* zernike_fit refuses an empty list of modes (reshape of an empty cube) *)
+Lemma fit_nonempty opd mask modes nrm crd c : fit opd mask modes nrm crd = Ok c -> modes <> [].
+Proof. unfold zernike_fit, zernike_basis_vec. intros H ->. cbn in H. discriminate. Qed.
 
 Lemma bmat_get mask modes nrm crd i p :
   bmat mask modes nrm crd i p = get (zern mask (nthmode modes i) nrm crd) (p / nc mask) (p mod nc mask).
@@ -218,27 +222,29 @@ Notation klen modes := (Z.of_nat (length modes)).
 Notation npix mask := (nr mask * nc mask).
 
 Lemma fit_total opd mask modes nrm crd :
-  modes_ok modes = true -> nr opd * nc opd = npix mask ->
+  modes <> [] -> modes_ok modes = true -> nr opd * nc opd = npix mask ->
   indep (klen modes) (npix mask) (bmat mask modes nrm crd) ->
   exists c, fit opd mask modes nrm crd = Ok c.
-Proof. intros Hm Hs Hi. unfold zernike_fit. rewrite Hm. cbn [negb].
+Proof. intros Hne Hm Hs Hi. unfold zernike_fit, zernike_basis_vec. rewrite Hm. cbn [negb].
+  destruct modes as [|j modes]; [contradiction|]. cbn [length Nat.eqb rbind nr nc get].
   replace (nr opd * nc opd =? npix mask) with true by lia. cbn [negb]. apply solve_total; [lia|exact Hi]. Qed.
 
 Lemma remove_total opd mask modes crd :
-  modes_ok modes = true -> nr opd = nr mask -> nc opd = nc mask ->
+  modes <> [] -> modes_ok modes = true -> nr opd = nr mask -> nc opd = nc mask ->
   indep (klen modes) (npix mask) (bmat mask modes true crd) ->
   exists res, remove opd mask modes crd = Ok res.
-Proof. intros Hm E1 E2 Hi. destruct (fit_total opd mask modes true crd Hm) as [c Hc]; [rewrite E1, E2; reflexivity|exact Hi|].
+Proof. intros Hne Hm E1 E2 Hi. destruct (fit_total opd mask modes true crd Hne Hm) as [c Hc]; [rewrite E1, E2; reflexivity|exact Hi|].
   unfold zernike_remove. rewrite Hc. cbn [rbind]. replace ((nr opd =? nr mask) && (nc opd =? nc mask)) with true by lia.
   cbn [negb]. eexists. reflexivity. Qed.
 
 Lemma fit_compose_id_total mask n modes (cs : list S) nrm crd :
-  0 <= n -> (forall i, 0 <= i < klen modes -> 1 <= nthmode modes i <= n) ->
+  modes <> [] -> 0 <= n -> (forall i, 0 <= i < klen modes -> 1 <= nthmode modes i <= n) ->
   length cs = length modes ->
   indep (klen modes) (npix mask) (bmat mask modes nrm crd) ->
   fit (compose mask (scatter n modes cs) nrm crd) mask modes nrm crd = Ok cs.
-Proof. intros Hn Hm Hl Hi.
+Proof. intros Hne Hn Hm Hl Hi.
   destruct (fit_total (compose mask (scatter n modes cs) nrm crd) mask modes nrm crd) as [c Hc].
+  - exact Hne.
   - apply modes_ok_range. intros i Hi'. specialize (Hm i Hi'). lia.
   - reflexivity.
   - exact Hi.
@@ -246,17 +252,17 @@ Proof. intros Hn Hm Hl Hi.
     exact (fit_compose_id S Sring FR Crd is0 zpoly solve solve_sound mask n modes cs c nrm crd Hn Hm Hl Hi Hc). Qed.
 
 Lemma remove_is_projection opd mask modes crd :
-  modes_ok modes = true -> nr opd = nr mask -> nc opd = nc mask ->
+  modes <> [] -> modes_ok modes = true -> nr opd = nr mask -> nc opd = nc mask ->
   indep (klen modes) (npix mask) (bmat mask modes true crd) ->
   exists res, remove opd mask modes crd = Ok res /\
     (exists c', fit res mask modes true crd = Ok c' /\ length c' = length modes /\
                 forall i, 0 <= i < klen modes -> nthZ c' i = k0) /\
     (exists res', remove res mask modes crd = Ok res' /\ nr res' = nr res /\ nc res' = nc res /\
                   forall r c, get res' r c = get res r c).
-Proof. intros Hm E1 E2 Hi. destruct (remove_total opd mask modes crd Hm E1 E2 Hi) as [res Hr].
+Proof. intros Hne Hm E1 E2 Hi. destruct (remove_total opd mask modes crd Hne Hm E1 E2 Hi) as [res Hr].
   exists res. split; [exact Hr|].
   pose proof (remove_ok S Crd is0 zpoly solve _ _ _ _ _ Hr) as (c & _ & _ & _ & R1 & R2 & _).
-  destruct (remove_total res mask modes crd Hm) as [res' Hr']; [congruence|congruence|exact Hi|].
+  destruct (remove_total res mask modes crd Hne Hm) as [res' Hr']; [congruence|congruence|exact Hi|].
   pose proof (remove_ok S Crd is0 zpoly solve _ _ _ _ _ Hr') as (c' & Hc' & _).
   split.
   - exists c'. split; [exact Hc'|]. split.
@@ -266,14 +272,14 @@ Proof. intros Hm E1 E2 Hi. destruct (remove_total opd mask modes crd Hm E1 E2 Hi
     exact (remove_idempotent S Sring FR Crd is0 zpoly solve solve_sound _ _ _ _ _ _ Hi Hr Hr'). Qed.
 
 Lemma remove_compose_zero_total mask n modes (cs : list S) crd :
-  0 <= n -> (forall i, 0 <= i < klen modes -> 1 <= nthmode modes i <= n) ->
+  modes <> [] -> 0 <= n -> (forall i, 0 <= i < klen modes -> 1 <= nthmode modes i <= n) ->
   length cs = length modes ->
   indep (klen modes) (npix mask) (bmat mask modes true crd) ->
   exists res, remove (compose mask (scatter n modes cs) true crd) mask modes crd = Ok res /\
               forall r c, get res r c = k0.
-Proof. intros Hn Hm Hl Hi.
+Proof. intros Hne Hn Hm Hl Hi.
   destruct (remove_total (compose mask (scatter n modes cs) true crd) mask modes crd) as [res Hr];
-    [apply modes_ok_range; intros i Hi'; specialize (Hm i Hi'); lia | reflexivity | reflexivity | exact Hi |].
+    [exact Hne | apply modes_ok_range; intros i Hi'; specialize (Hm i Hi'); lia | reflexivity | reflexivity | exact Hi |].
   exists res. split; [exact Hr|].
   exact (remove_compose_zero S Sring FR Crd is0 zpoly solve solve_sound mask n modes cs crd res Hn Hm Hl Hi Hr). Qed.
 End ZFT.
